@@ -110,7 +110,20 @@ class NumpyBackendProvider(BackendProvider):
 
         param_names = list(self._collect_params(ir))
         fn_source = f"def _expr({', '.join(param_names)}): return {source}"
-        ns = {'np': np}
+
+        def _kg_pow(a, b):
+            # same integer-preserving rule as the interpreter's a^b
+            from ..dyads import _e_dyad_power
+            return self.vec_fn2(a, b, lambda x, y: _e_dyad_power(x, y, self))
+
+        def _kg_vec(a):
+            # the reduce/scan shortcuts coincide with f/a and f\a only for non-empty vectors;
+            # anything else (atoms, [], matrices) is left to the interpreter (any exception falls back)
+            if np.ndim(a) != 1 or len(a) == 0:
+                raise TypeError("not a non-empty vector")
+            return a
+
+        ns = {'np': np, '_kg_pow': _kg_pow, '_kg_vec': _kg_vec}
         try:
             exec(fn_source, ns)
         except Exception:
@@ -133,7 +146,9 @@ class NumpyBackendProvider(BackendProvider):
             r = self._ir_to_source(right)
             if l is None or r is None:
                 return None
-            py_op = {'+': '+', '-': '-', '*': '*', '%': '/', '^': '**'}.get(op)
+            if op == '^':
+                return f'_kg_pow({l},{r})'
+            py_op = {'+': '+', '-': '-', '*': '*', '%': '/'}.get(op)
             if py_op is None:
                 return None
             return f'({l}{py_op}{r})'
@@ -163,7 +178,7 @@ class NumpyBackendProvider(BackendProvider):
             method = {'+': 'np.add.reduce', '*': 'np.multiply.reduce', '|': 'np.maximum.reduce', '&': 'np.minimum.reduce'}.get(op)
             if method is None:
                 return None
-            return f'{method}({arg_src})'
+            return f'{method}(_kg_vec({arg_src}))'
 
         if node_type == 'scan':
             op, arg = ir[1], ir[2]
@@ -173,7 +188,7 @@ class NumpyBackendProvider(BackendProvider):
             method = {'+': 'np.cumsum', '*': 'np.cumprod'}.get(op)
             if method is None:
                 return None  # |\ and &\ not supported in numpy
-            return f'{method}({arg_src})'
+            return f'{method}(_kg_vec({arg_src}))'
 
         return None
 
